@@ -138,8 +138,9 @@ def init_tensor_min_max(
 ):
   """Initialize the min/max for a tensor."""
   tensor_data = tfl_flatbuffer_utils.get_tensor_data(tensor, graph_info.buffers)
-  # Initial values for non-constant tensors.
-  if tensor_data is None:
+  # Initial values for non-constant tensors. An empty constant (e.g. the shape
+  # operand of a reshape to a scalar) has no min/max either.
+  if tensor_data is None or tensor_data.size == 0:
     return {}
   # Real min/max for constant tensors.
   else:
